@@ -37,6 +37,7 @@ func C10(c *core.Ctx) {
 	emit(c, a.Memo("(*pkg/schemas.CachedLoader).Load"))
 	emit(c, a.Cycle())
 	emit(c, a.ParentPath())
+	emit(c, a.RefCacheScope())
 }
 
 // C20 — each schema's code lands once, in the file and package mapped to its id.
